@@ -215,42 +215,6 @@ def arr(x):
     return np.asarray(x, dtype=float)
 
 
-def nndsvd_divides_by_zero(M, rank):
-    """does make_svd_non_negative hit 0/0 on this matrix: for some j >= 1 both ||x+||*||y+|| and ||x-||*||y-|| vanish"""
-    try:
-        U, S, V = np.linalg.svd(np.asarray(M, float), full_matrices=False)
-    except Exception:
-        return True
-    for j in range(1, min(U.shape[1], V.shape[0], rank)):
-        x, y = U[:, j], V[j, :]
-        # sign flips of the pair do not change the test; entries below rounding level count as zero for neither side
-        mp = np.linalg.norm(np.clip(x, 0, None)) * np.linalg.norm(np.clip(y, 0, None))
-        mn = np.linalg.norm(np.clip(-x, 0, None)) * np.linalg.norm(np.clip(-y, 0, None))
-        x2, y2 = -x, y
-        mp2 = np.linalg.norm(np.clip(x2, 0, None)) * np.linalg.norm(np.clip(y2, 0, None))
-        mn2 = np.linalg.norm(np.clip(-x2, 0, None)) * np.linalg.norm(np.clip(-y2, 0, None))
-        if max(mp, mn) == 0 or max(mp2, mn2) == 0:
-            return True
-    return False
-
-
-def clf_nndsvd_nan(f):
-    """init='svd' with NNDSVD (non_negative=True) on a matrix unfolding where the selected norm product is zero -> NaN factors"""
-    inp = f["inputs"]
-    if inp.get("init") != "svd" or inp.get("algo") not in ("nn_cp_mu", "nn_cp_hals", "nn_tucker_mu", "nn_tucker_hals"):
-        return False
-    if "nan" not in f["message"]:
-        return False
-    X = _tensor_of(inp)
-    rank = inp["rank"]
-    for mode in range(X.ndim):
-        r = rank[mode] if isinstance(rank, (list, tuple)) else rank
-        M = np.moveaxis(X, mode, 0).reshape(X.shape[mode], -1)
-        if nndsvd_divides_by_zero(M, int(r)):
-            return True
-    return False
-
-
 def clf_parafac2_linesearch_mode1(f):
     inp = f["inputs"]
     if inp.get("algo") != "parafac2" or not inp["opts"].get("linesearch"):
@@ -292,8 +256,7 @@ def clf_tucker_fista_zero_gram(f):
     return any(np.all(x == 0) for x in fs)
 
 
-CLASSIFIERS = {"nndsvd_zero_norm_division_nan": clf_nndsvd_nan,
-               "parafac2_linesearch_mode1_declared": clf_parafac2_linesearch_mode1,
+CLASSIFIERS = {"parafac2_linesearch_mode1_declared": clf_parafac2_linesearch_mode1,
                "parafac2_svd_init_signed_C": clf_parafac2_svd_init,
                "tucker_hals_fista_zero_gram_infinite_step": clf_tucker_fista_zero_gram}
 
@@ -352,7 +315,7 @@ def gen_configs(tier, rng):
                         sp = [rng.choice([None, 0.0, 0.1, 2.0]) for _ in range(order)]
                     yield dict(algo="nn_cp_hals", tensor=X, klass=klass, rank=rank, init=init, n=n, rs=rs, nn_modes=nn,
                                opts=dict(tol=rng.choice([0, 1e-8, 1e-2]), normalize=rng.random() < 0.5, fixed_modes=fixed, sparsity=sp,
-                                         exact=(rng.random() < 0.15 and X.size <= 30), cvg=rng.choice(["abs_rec_error", "rec_error"])))
+                                         exact=(rng.random() < 0.15 and X.size <= 24 and n <= 1 and rank <= 2), cvg=rng.choice(["abs_rec_error", "rec_error"])))
                 # ---------------- Tucker
                 ranks = [rng.randint(1, min(3, s)) for s in shape]
                 for ini in ("svd", "random", "user"):
@@ -457,6 +420,109 @@ def evaluate_cfg(chk, cfg, stats):
         stats["undeclared_negative"] += 1
 
 
+# ----------------------------------------------------------------------------- solver-level predicates (solvers/nnls.py)
+ENTRY_SOLVER = {"hals_nnls": "tensorly.solvers.nnls.hals_nnls", "fista": "tensorly.solvers.nnls.fista",
+                "active_set_nnls": "tensorly.solvers.nnls.active_set_nnls"}
+
+
+def run_solver(cfg):
+    from tensorly.solvers.nnls import hals_nnls, fista, active_set_nnls
+    s = cfg["solver"]
+    A = lambda k: None if cfg.get(k) is None else np.array(arr(cfg[k]), copy=True)
+    if s == "hals_nnls":
+        return hals_nnls(A("UtM"), A("UtU"), A("V"), n_iter_max=cfg["n"], tol=cfg["tol"], sparsity_coefficient=cfg.get("sparsity"),
+                         ridge_coefficient=cfg.get("ridge"), epsilon=cfg["epsilon"], exact=False)
+    if s == "fista":
+        return fista(A("UtM"), A("UtU"), x=A("x"), n_iter_max=cfg["n"], non_negative=True, sparsity_coef=cfg.get("sparsity", 0),
+                     ridge_coef=cfg.get("ridge", 0), lr=cfg.get("lr"), tol=cfg["tol"], epsilon=cfg["epsilon"])
+    if s == "active_set_nnls":
+        return active_set_nnls(A("UtM").reshape(-1), A("UtU"), x=A("x"), n_iter_max=cfg["n"], tol=cfg["tol"])
+    raise KeyError(s)
+
+
+def solver_failures(cfg, out):
+    """transcriptions of C10_hals_nnls_nonneg / C10_hals_sweep_ge / C10_fista_ge / C10_fista_nonneg / C10_active_set_nonneg"""
+    out = np.asarray(out, float)
+    s, n = cfg["solver"], cfg["n"]
+    fails = []
+    if s == "hals_nnls":
+        V0 = arr(cfg["V"]); G = arr(cfg["UtU"]); eps = cfg["epsilon"]
+        if eps >= 0 and (V0 >= 0).all() and not (out >= 0).all():
+            fails.append("non-negative start and epsilon >= 0 but the result has entries that are not >= 0")
+        if n >= 1:
+            for k in range(G.shape[0]):
+                if G[k, k] != 0 and not (out[k] >= eps).all():
+                    fails.append(f"row {k} (non-zero diagonal of UtU) has entries below epsilon={eps!r} after {n} sweeps: {out[k].min()!r}")
+                    break
+    elif s == "fista":
+        eps = cfg["epsilon"]
+        if n >= 1 and not (out >= eps).all():
+            fails.append(f"entries below epsilon={eps!r} after {n} iterations: {np.nanmin(out)!r}")
+        if n == 0 and eps >= 0 and cfg.get("x") is not None and (arr(cfg["x"]) >= 0).all() and not (out >= 0).all():
+            fails.append("non-negative start, no iteration, but the result is not >= 0")
+    elif s == "active_set_nnls":
+        x0 = cfg.get("x")
+        start_ok = x0 is None or (arr(x0) >= 0).all()
+        if (n >= 1 or start_ok) and not (out >= 0).all():
+            fails.append(f"result has entries that are not >= 0: {np.nanmin(out) if not np.isnan(out).all() else float('nan')!r}")
+    return fails
+
+
+def gen_solver_cfgs(tier, rng):
+    nrep = 40 if tier == "quick" else 400
+    for k in range(nrep):
+        r = rng.randint(1, 4)
+        m = rng.randint(r, r + 3)
+        A = np.array([[rng.gauss(0, 1) for _ in range(r)] for _ in range(m)])
+        kind = rng.choice(["generic", "generic", "nonneg", "rankdef", "zerocol", "illcond"])
+        if kind == "nonneg":
+            A = np.abs(A)
+        elif kind == "rankdef" and r > 1:
+            A[:, -1] = A[:, 0] * rng.choice([1.0, -2.0])
+        elif kind == "zerocol":
+            A[:, rng.randrange(r)] = 0.0
+        elif kind == "illcond" and r > 1:
+            A[:, -1] = A[:, 0] + 1e-7 * A[:, -1]
+        G = A.T @ A
+        ncol = rng.randint(1, 3)
+        M = np.array([[rng.gauss(0, 1) for _ in range(ncol)] for _ in range(m)]) * rng.choice([1.0, 1.0, -1.0]) \
+            if rng.random() < 0.7 else -np.abs(np.array([[rng.gauss(0, 1) for _ in range(ncol)] for _ in range(m)]))
+        UtM = A.T @ M
+        yield dict(solver="hals_nnls", UtM=UtM, UtU=G, n=rng.choice([1, 2, 5, 100]), tol=rng.choice([0, 1e-8]),
+                   V=(np.abs(np.array([[rng.gauss(0, 1) for _ in range(ncol)] for _ in range(r)])) * rng.choice([0.0, 1.0])
+                      if rng.random() < 0.6 else np.array([[rng.gauss(0, 1) for _ in range(ncol)] for _ in range(r)])),
+                   sparsity=rng.choice([None, None, 0.5, 5.0]), ridge=rng.choice([None, None, 0.5]),
+                   epsilon=rng.choice([0.0, 0.0, 1e-12, 0.3]), kind=kind)
+        x0 = rng.choice(["none", "nonneg", "signed", "zero"])
+        xv = {"none": None, "nonneg": np.abs(np.array([rng.gauss(0, 1) for _ in range(r)])),
+              "signed": np.array([rng.gauss(0, 1) for _ in range(r)]), "zero": np.zeros(r)}[x0]
+        yield dict(solver="fista", UtM=UtM[:, 0], UtU=G, x=xv, n=rng.choice([0, 1, 2, 5, 50]), tol=rng.choice([0, 1e-8]),
+                   sparsity=rng.choice([0, 0, 0.5]), ridge=rng.choice([0, 0, 0.5]), lr=rng.choice([None, 0.01, 1.0, 10.0]) if kind not in ("zerocol",) or r > 1 else 0.1,
+                   epsilon=rng.choice([1e-8, 0.0, 0.3]), kind=kind)
+        yield dict(solver="active_set_nnls", UtM=UtM[:, 0], UtU=G, x=xv, n=rng.choice([0, 1, 2, 3, 100]), tol=rng.choice([10e-8, 0]), kind=kind)
+
+
+def evaluate_solver(chk, cfg, stats):
+    def call():
+        with warnings.catch_warnings():
+            warnings.simplefilter("ignore")
+            with np.errstate(all="ignore"):
+                return run_solver(cfg)
+    st, out = C.call_impl(call, timeout=60)
+    chk.hist("solver", cfg["solver"]); chk.hist("solver_outcome", st)
+    chk.count(key=("solver", cfg["solver"], cfg["kind"], cfg["n"], np.asarray(cfg["UtU"]).shape), nontrivial=True)
+    if st != "ok":
+        stats["not_ok"].append((cfg["solver"], cfg["kind"], "-", str(out)[:120]))
+        return
+    if not np.all(np.isfinite(np.asarray(out, float))) and cfg["kind"] in ("rankdef", "zerocol", "illcond"):
+        stats["solver_nonfinite_degenerate"] = stats.get("solver_nonfinite_degenerate", 0) + 1
+        return      # singular systems: LAPACK may return inf/nan without raising; outside the property (no finite solve)
+    fails = solver_failures(cfg, out)
+    if fails:
+        chk.finding(ENTRY_SOLVER[cfg["solver"]], dict(cfg), "; ".join(fails), "solver_output_nonnegative", observed=out)
+    stats["checked"] += 1
+
+
 # ----------------------------------------------------------------------------- machinery
 def merge_known():
     """make the entries of known_findings.d/C10.json visible even before the coordinator has merged them"""
@@ -482,15 +548,30 @@ def drop_header_pseudo_axiom(chk):
 
 
 def run(chk):
+    import time, resource
+    def cpu():
+        a, b = resource.getrusage(resource.RUSAGE_SELF), resource.getrusage(resource.RUSAGE_CHILDREN)
+        return a.ru_utime + a.ru_stime + b.ru_utime + b.ru_stime
+    stages, t0, c0 = {}, time.time(), cpu()
+    def stage(name):
+        nonlocal t0, c0
+        stages[name] = {"wall_s": round(time.time() - t0, 1), "cpu_s": round(cpu() - c0, 1)}
+        t0, c0 = time.time(), cpu()
     rng = random.Random(chk.seed)
     merge_known()
     chk.build_proofs()
     drop_header_pseudo_axiom(chk)
+    stage("build_and_print_assumptions")
     C.reset_backends()
     stats = {"not_ok": [], "checked": 0, "undeclared_negative": 0}
     for cfg in gen_configs(chk.tier, rng):
         evaluate_cfg(chk, cfg, stats)
+    for cfg in gen_solver_cfgs(chk.tier, rng):
+        evaluate_solver(chk, cfg, stats)
+    stage("decomposition_runs")
     run_correspondence(chk, rng)
+    stage("correspondence")
+    chk.cov["stages"] = stages
     chk.cov["decomposition_runs_checked"] = stats["checked"]
     chk.cov["runs_with_negative_entries_on_undeclared_modes"] = stats["undeclared_negative"]
     chk.cov["runs_raising"] = len(stats["not_ok"])
@@ -503,6 +584,16 @@ def replay(payload):
         print("replay file names a broken theorem/correspondence, not an input:", payload.get("theorem_or_correspondence"))
         return 1
     inp = payload["inputs"]
+    if "solver" in inp:
+        cfg = dict(inp)
+        C.reset_backends()
+        st, out = C.call_impl(lambda: run_solver(cfg), timeout=120)
+        if st != "ok":
+            print("replay: raised", out)
+            return 1
+        fails = solver_failures(cfg, out)
+        print("replay:", cfg["solver"], "->", fails or "holds")
+        return 1 if fails else 0
     cfg = dict(inp)
     X = inp["tensor"]
     cfg["tensor"] = [arr(s) for s in X] if isinstance(X, list) else arr(X)
@@ -819,6 +910,9 @@ def run_correspondence(chk, rng):
     tk, skipped_py = corr_mu_tucker(rng, chk.tier)
     groups += tk
     groups += corr_line(rng, chk.tier)
+    # interleave the groups so that every shard gets a mix of cheap and expensive cases
+    nsh = max(1, -(-len(groups) // (12 if chk.tier == "quick" else 25)))
+    groups = [g for k in range(nsh) for g in groups[k::nsh]]
     cases, meta = [], []
     for op, atol, w, Fs, m in groups:
         cid = len(cases)
